@@ -4,9 +4,31 @@ import "verif/checker/internal/core"
 
 func init() {
 	register(&Prop{
-		ID:      "C11",
-		Rules:   []*Rule{rCodec},
-		Explain: "interim",
+		ID:    "C11",
+		Rules: []*Rule{rCodec, rRegType, rErrnoTable, rStackSlot, rTreeRec},
+		Explain: "Decides, for every registered type key, that each annotation field has a wire slot that the writer fills from that same field and the reader restores into that same field (payload members, positional safe details, message), that decoders rebuild the key's own type (so flag types recognised by Go type survive), that errno predicates travel in matching pairs, and that the printed-stack slot is re-parsed for the same key set by both stack accessors. " +
+			"NOT decided: equality of re-parsed frames (text parsing), tag values rendered through ValueStr, OS predicates on foreign platforms beyond the pairing.",
+		Trusted: []string{"go/ssa", "gogo/protobuf marshalling of the payload messages"},
+	})
+	register(&Prop{
+		ID:    "C01",
+		Rules: []*Rule{rCodec, rOpaque, rTreeRec, rRegType, rSep, rWalkMulti, rShape},
+		Explain: "Decides the structural necessary conditions of text/shape preservation: writer/reader slot agreement for every field that Error() reads (R-CODEC), verbatim keep-and-re-emit of message, details, message type and causes by unknowing processes (R-OPAQUE-TRANSPORT), cause/branch recursion on both sides in index order with no branch dropped for any count (R-TREE-RECURSION, R-WALK-MULTI), decoders rebuilding the key's type (no drift after hop 1), one separator constant removed exactly (R-SEP), and Error()/formatter shape agreement. " +
+			"NOT decided: equality of Error() strings for all messages (in particular suffix-matching ambiguity in extractPrefix for messages containing \": \"), protobuf marshalling itself.",
+		Trusted: []string{"go/ssa", "gogo/protobuf"},
+	})
+	register(&Prop{
+		ID:    "C02",
+		Rules: []*Rule{rCodec, rRegType, rOpaque, rTypeKeyWho, rMarkLayers, rTreeRec},
+		Explain: "Identity = (Error() text, chain of (family name, extension)). Decides that every identity-relevant field has slot agreement (incl. withMark's explicit mark and withDomain's extension), decoders rebuild the key's type, unknowing hops keep and re-emit the received names, every consumer of identity goes through getTypeDetails with the full mark where the extension matters, and a mark has one full type mark per layer. " +
+			"NOT decided: that text is preserved (C01's undecided part), semantics of foreign Is methods, 'never starts matching' over all pairs.",
+		Trusted: []string{"go/ssa"},
+	})
+	register(&Prop{
+		ID:    "C04",
+		Rules: []*Rule{rOpaque, rWireMsg, rTreeRec, rRegType, rCodec},
+		Explain: "Decides that opaque values keep and re-emit exactly what was received (message, details incl. payload Any, message type, causes - R-OPAQUE-TRANSPORT, R-TREE-RECURSION), that the wire message each registered encoder sends is what an unknowing receiver needs to rebuild Error() for the type's Error() shape (R-WIRE-MSG), and that a later knowing receiver rebuilds from payload/details (R-CODEC, R-REGTYPE). " +
+			"NOT decided: %+v equality at the final receiver; the renaming simulation (a runtime configuration). Known findings: barrier and gRPC-status encoders (see known_findings.json).",
 		Trusted: []string{"go/ssa"},
 	})
 	register(&Prop{
@@ -58,7 +80,7 @@ func init() {
 		Rules: []*Rule{rCmpGuard, {Name: "R-BOUNDS", Doc: rBounds.Doc + " (restricted to package markers: equalMarks' lock-step indexing is also the 'difference in chain length makes them different' clause)",
 			Run: func(c *core.Ctx) {
 				runBounds(c, func(rel, fn string) bool { return rel == "markers" })
-			}}, rRecover, rNilSafe},
+			}}, rRecover, rNilSafe, rMarkLayers},
 		Explain: "Decides the totality clauses of Is/IsAny and the chain-length clause of mark equivalence: no unguarded interface comparison, no unproven lock-step index in markers, Error() of foreign errors only under recover, and no nil dereference reachable with nil inputs over the whole accessor surface. " +
 			"NOT decided: reflexivity, monotonicity under wrappers, IsAny = OR of Is, and 'exactly when' (semantic equivalences over all pairs of errors).",
 		Trusted: []string{"go/ssa", "reflect.Type.Comparable semantics", "nilness lattice"},
